@@ -64,6 +64,25 @@ func c17one(s string, want string, form string) {
 			return
 		}
 	}
+	// interpolation passes that substitute nothing leave the source as it is written (and with it the identity)
+	if c17parseN%5 == 0 && !strings.Contains(s, "{{") && strings.ToValidUTF8(s, "\uFFFD") == s {
+		st := &pipeline.CommandStep{Command: "c", Plugins: pipeline.Plugins{{Source: s}},
+			Matrix: &pipeline.Matrix{Setup: pipeline.MatrixSetup{"": {"v"}}}}
+		if err := st.InterpolateMatrixPermutation(pipeline.MatrixPermutation{"": "v"}); err != nil || st.Plugins[0].Source != s || st.Plugins[0].FullSource() != got {
+			oracleFail("C17", "source-changed-by-interpolation", c, fmt.Sprintf("after a matrix interpolation that replaces nothing the plugin has Source %q / FullSource %q (err %v); before: %q / %q", st.Plugins[0].Source, st.Plugins[0].FullSource(), err, s, got))
+			return
+		}
+		if !strings.ContainsAny(s, "$\\") {
+			p := &pipeline.Pipeline{Steps: pipeline.Steps{&pipeline.CommandStep{Command: "c", Plugins: pipeline.Plugins{{Source: s}}}}}
+			err := p.Interpolate(pipeline.VerifEnvFromMap(true, map[string]string{}), false)
+			pl := p.Steps[0].(*pipeline.CommandStep).Plugins[0]
+			if err != nil || pl.Source != s || pl.FullSource() != got {
+				oracleFail("C17", "source-changed-by-interpolation", c, fmt.Sprintf("after an env interpolation that expands nothing the plugin has Source %q / FullSource %q (err %v); before: %q / %q", pl.Source, pl.FullSource(), err, s, got))
+				return
+			}
+		}
+		stat("C17", "interpolation-keeps-source")
+	}
 	// a plugin that arrives through the parser keeps its source as written (what FullSource then sees)
 	if c17parseN%23 == 0 && strings.ToValidUTF8(s, "\uFFFD") == s && s != "" {
 		stepDoc := map[string]any{"command": "c", "plugins": []any{map[string]any{s: nil}}}
